@@ -103,7 +103,7 @@ def reuse_case(jp, rec, R, text, q, doc):
     c = o[1]
     steps = []
     # an evaluation suspended while the same compiled query is applied to another document ('$' must stay bound)
-    other = D.doc_for(R, q, maxdepth=3, maxwidth=4)
+    other = D.doc_for(R, q, maxdepth=3, maxwidth=4, shapes=0)
     want0 = mon.want_sig(SD.MODEL.find(q, doc))
 
     def suspended():
@@ -210,8 +210,9 @@ def run_shard(spec, rec):
             text = G.render(q, R, feat=rec.features)
             via = R.choice(["find", "finditer", "finditer"])
             if R.random() < 0.2:
-                via = ("reuse", D.doc_for(R, q, maxdepth=3, maxwidth=3))
+                via = ("reuse", D.doc_for(R, q, maxdepth=3, maxwidth=3, shapes=0))
             model.both = False
+            rec.wal({"query": text, "document": D.short(doc, 400)})
             try:
                 with guard(20):
                     key, want, got = SD.check_case(jp, text, q, doc, rec, via)
@@ -220,7 +221,12 @@ def run_shard(spec, rec):
                 continue
             if key is None and R.random() < 0.2:
                 # the same compiled query applied again after the document was updated in place, and to a second document
-                key = reuse_case(jp, rec, R, text, q, doc)
+                try:
+                    with guard(30):
+                        key = reuse_case(jp, rec, R, text, q, doc)
+                except CaseTimeout:
+                    rec.timeout(text)
+                    key = None
                 if key:
                     rec.violation(key[0], key[1])
                     key = None
